@@ -45,6 +45,8 @@ type c02Case struct {
 
 var c02Names = []string{"a", "b", "c", "d"}
 var c02Texts = []string{"", "x", "y", " x ", "12", " 7", "3.5", "true", "x y", "NaN", "2020-01-02", "é", "0", "-4", "yes", "\t",
+	// white space beyond ASCII (trimming is Unicode-aware)
+	"\u00a0x\u00a0", "\u3000", "\u0085 7", "\u2003y", "x\u00a0y",
 	// numeric edge forms: a cast reads decimal integers / Go floats / Go booleans, nothing else
 	"010", "08", "0x10", "1_000", "+5", "1e3", ".5", "1.", "0b11", "0o7", "T", "1", "FALSE", "Inf", "-0", "9223372036854775807", "9223372036854775808"}
 
@@ -224,6 +226,8 @@ func (g *c02DeclGen) anchor(d map[string]interface{}, prob int) {
 			d["xpath_dynamic"] = map[string]interface{}{"xpath": "nosuch", "type": "int"} // no match -> nil value
 		case 2:
 			d["xpath_dynamic"] = map[string]interface{}{"const": "x", "type": "int"} // fails
+		case 3, 4, 5:
+			d["xpath_dynamic"] = map[string]interface{}{"external": "xp"} // the xpath comes from an external property
 		default:
 			xp := g.xpath()
 			if len(xp) > 1 && rapid.Bool().Draw(g.t, g.label("dynsplit")) {
@@ -642,7 +646,18 @@ func checkC02(c c02Case) obs.Result {
 		return obs.Result{Excluded: "schema rejected: " + firstLine(err.Error())}
 	}
 	in := c.input()
-	ext := map[string]string{"e1": " ext one ", "e2": "42"}
+	xps := c02XPaths(c.Format, c.Shape)
+	ext := map[string]string{"e1": " ext one ", "e2": "42", "xp": xps[len(c.Decls)%len(xps)]}
+	// the same Schema object first serves another transform with other external properties: nothing of it
+	// may stick to the schema
+	decoy := map[string]string{"e1": "other", "e2": "x", "xp": xps[(len(c.Decls)+1)%len(xps)]}
+	if dtr, derr := sch.NewTransform("decoy", bytes.NewReader(in), &transformctx.Ctx{ExternalProperties: decoy}); derr == nil {
+		for i := 0; i < 200; i++ {
+			if _, e := dtr.Read(); e != nil && !errs.IsErrTransformFailed(e) {
+				break
+			}
+		}
+	}
 	tr, err := sch.NewTransform("input", bytes.NewReader(in), &transformctx.Ctx{ExternalProperties: ext})
 	if err != nil {
 		return obs.Violationf("NewTransform failed on a well-formed input: %v", err)
